@@ -26,7 +26,9 @@ THEOREMS = [P + t for t in (
     "elem_name_invariant", "elem_step_exact", "elem_handle_follows_store",
     "create_accept_iff", "derived_classes_known", "derived_service_name_iff", "derived_service_suffixes_ok",
     "component_name_rejected_counterexample", "component_name_accepted_partial", "facility_name_iff",
-    "facility_name_rejected_counterexample")]
+    "facility_name_rejected_counterexample",
+    "repo_kept_clean", "refused_call_changes_nothing", "kept_sliver_invariant", "kept_sliver_redecodes", "history_then_redecode",
+    "write_first_counterexample", "decode_alters_counterexample")]
 TRUSTED_BASE = [
     "gen/entrypoints.py: closed-world AST scan of fim/user/*.py, fim/slivers/*.py and abc_property_graph.py for statements that store a validated "
     "value (attribute assignments to the validated sliver / Labels / Tags / JSON fields and to _name, setattr/__setattr__/__dict__ writes, "
@@ -49,6 +51,10 @@ TRUSTED_BASE = [
     "Model/Validate16.lean mirrors Labels._set_fields, Tags, set_name, set_boot_script, JSONData.__init__, the four ways of renaming an element and the "
     "derived-name checks of add_component / add_facility / add_switch by hand; checked differentially per entry point (ops labels, tags, name, ename, "
     "ehist, create, boot, jsonstr, jsonobj, match)",
+    "gen/validators.py kept_probe: behavioural probes of every sliver class - a refused set_name / set_boot_script call (setter, set_property, bulk "
+    "set_properties) leaves the kept object as it was (Gen.Validators.writeFirst), and the property-dictionary decoder hands every member word of the "
+    "sentinel pool of harness/lib_c16 (None, null, NaN, '', graph-layer constants ...) back as given (decodeAlters); theorem repo_kept_clean; the kept-sliver "
+    "model (stepSliver / reDecode) is compared with the real classes by the correspondence op `kept`",
     "the call graph over-approximates (method names resolved by name when the receiver is unknown): 'reaches the validator' is a may-fact; the "
     "must-part is the closed-world store table plus the behavioural probes of every entry point",
 ]
@@ -58,7 +64,11 @@ ENTRY_POINTS_NOTE = ("75 entry points discovered (99 entry-point x parameter row
                      "member of its domain and every element decodes. Alias family: every entry point x every container domain (tag list, list-valued "
                      "label field, JSON blob from a Python object) is also called with a value built from a mutable object the caller keeps; after the "
                      "acceptance the caller puts a NON-MEMBER into its object (append, item / slice assignment, insert, extend, +=) and the stored value "
-                     "is read, encoded and decoded again (signatures C16:alias.<constructor that kept the argument>.<tags|labels|json>:...).")
+                     "is read, encoded and decoded again (signatures C16:alias.<constructor that kept the argument>.<tags|labels|json>:...). "
+                     "Refused-call family: every entry point x domain is also run as histories member / non-member / member and non-member / member on ONE "
+                     "kept target (EP.C(keep=True)); after each refused call no kept target carries the refused value, each still encodes and decodes, the "
+                     "topology is swept (C16:refused.<entry>.<domain>:...). Codec family: every sliver kind x validated property x sentinel look-alike "
+                     "members through the graph-property and JSON codecs (C16:codec.<class>.<property>.<codec>:...).")
 ASSUMPTIONS = [
     "values are str / list / None / other objects (ints, bytes, containers, str subclasses, objects that are not of the parameter's class); attribute "
     "assignment on a Labels / Tags / JSONData / sliver object by the caller (bypassing every setter) is outside the quantifier; mutating the "
@@ -274,6 +284,36 @@ class Impl:
         except Exception as e:
             return ["err", kind(e)]
 
+    def kept(self, cls, init, ops):
+        """one kept sliver object: a history of name / boot-script setter calls (some refused), then encode -> decode"""
+        from fim.graph.abc_property_graph import ABCPropertyGraph as G
+        s = self.classes[cls]()
+        s.set_name(init)
+        for which, route, v in ops:
+            v = self.val(v)
+            key, meth = {"name": ("name", "set_name"), "boot": ("boot_script", "set_boot_script")}[which]
+            try:
+                if route == "setter":
+                    getattr(s, meth)(v)
+                elif route == "set_property":
+                    s.set_property(key, v)
+                else:
+                    s.set_properties(details="d", **{key: v}, model="m")
+            except Exception:
+                pass
+
+        def show(x):
+            return x if x is None or isinstance(x, str) else "<other>"
+        held = (s.resource_name, s.boot_script)
+        try:
+            d = G.base_sliver_to_graph_properties_dict(s)
+            s2 = self.classes[cls]()
+            G.set_base_sliver_properties_from_graph_properties_dict(s2, {k: v for k, v in d.items() if k != "Type"})
+            back = "same" if (s2.resource_name, s2.boot_script) == held else "differs"
+        except Exception:
+            back = "err"
+        return ["ok", [show(held[0]), show(held[1]), back]]
+
     def jsonstr(self, cls, text):
         try:
             d = getattr(self.jd, cls)(text)
@@ -330,6 +370,8 @@ def impl_eval(req):
         return I.create(req[1], req[2], req[3], req[4], req[5])
     if op == "ehist":
         return I.ehist(req[1], req[2], req[3])
+    if op == "kept":
+        return I.kept(req[1], req[2], req[3])
     if op == "boot":
         return I.boot(req[1])
     if op == "jsonstr":
@@ -481,10 +523,11 @@ def create_cases(rng, n):
         parent = rng.choice(parents)
         room = 255 - len(parent) - 7
         s = rng.choice(["a b", "ab", "a", "nic1", "a_b", "a.b", "a+b", "n" * room, "n" * (room + 1), "n" * (room + 2), "n" * (room - 1), "n" * 252,
-                        "n" * 253, "n" * 255, "n" * 256, "é" * 5, "a\n", "x" * max(2, room) + " "] + L.name_candidates("ComponentSliver", rng, 30)[23:])
+                        "n" * 253, "n" * 255, "n" * 256, "é" * 5, "a\n", "x" * max(2, room) + " "] + L.name_candidates("ComponentSliver", rng, L.NAME_HEAD + 7)[L.NAME_HEAD:]
+                       + ["None", "null"])
         reqs.append(["create", "ComponentSliver", "component", variant, parent, s])
     for s in ["ab", "a", "n" * 250, "n" * 251, "n" * 252, "n" * 253, "n" * 254, "n" * 255, "n" * 256, "a b", "a_b", "fac-1.x", "é" * 251, "é" * 252] + \
-            L.name_candidates("NodeSliver", rng, 23 + n // 4)[23:]:
+            ["None", "null"] + L.name_candidates("NodeSliver", rng, L.NAME_HEAD + n // 4)[L.NAME_HEAD:]:
         reqs.append(["create", "NodeSliver", "facility", "", "", s])
         reqs.append(["create", "NodeSliver", "switch", "", "", s])
     return reqs
@@ -501,12 +544,39 @@ def hist_cases(rng, n):
     return reqs
 
 
+def kept_cases(rng, n):
+    """histories on one kept sliver: names and boot scripts, members and non-members (sentinel look-alikes, sizes at the limit,
+    wrong types), through the three routes; then encode -> decode"""
+    reqs = []
+    routes = ["setter", "set_property", "set_properties"]
+    boots = ["None", "null", "", "x" * 1023, "x" * 1024, "x" * 1025, "é" * 1024, "echo hi\n", None, OTHER, ["x"], "0", "False"]
+    classes = ["NodeSliver", "ComponentSliver", "InterfaceSliver", "NetworkLinkSliver", "NetworkServiceSliver"]
+    det = [[["boot", "setter", "ok"], ["boot", "setter", "x" * 1024]], [["boot", "set_properties", "x" * 2000]], [["name", "setter", "None"]],
+           [["boot", "set_property", "None"]], [["name", "set_property", "ab\n"], ["boot", "setter", OTHER]],
+           [["name", "setter", "None"], ["boot", "setter", "None"], ["name", "set_properties", ""], ["boot", "set_properties", "x" * 1024]]]
+    for cls in classes:
+        for ops in det:
+            reqs.append(["kept", cls, "n1", ops])
+    for _ in range(n):
+        cls = rng.choice(classes)
+        names = L.name_candidates(cls, rng, L.NAME_HEAD + 6) + [None, OTHER]
+        ops = []
+        for _ in range(rng.randrange(1, 6)):
+            if rng.random() < 0.5:
+                ops.append(["name", rng.choice(routes), rng.choice(names)])
+            else:
+                ops.append(["boot", rng.choice(routes), rng.choice(boots)])
+        reqs.append(["kept", cls, rng.choice(["n1", "None", "ab"]), ops])
+    return reqs
+
+
 def size_cases(rng):
     reqs = []
     for n in [0, 1, 2, 1022, 1023, 1024, 1025, 2000]:
         reqs.append(["boot", "x" * n])
         reqs.append(["boot", "é" * n])
     reqs += [["boot", None], ["boot", OTHER], ["boot", ["x"]], ["boot", "#!/bin/bash\necho hi\n"]]
+    reqs += [["boot", w] for w in L.LITERAL_SENTINELS[:16]]
     for cls, m in sorted(L.JSON_MAX.items()):
         for n in [m - 2, m - 1, m, m + 1, m + 2, 2, 10]:
             reqs.append(["jsonstr", cls, '"' + "a" * (n - 2) + '"'])
@@ -566,7 +636,7 @@ def _rand_json(rng, depth):
 def all_cases(ctx, tag, per_field, names, tags):
     rng = ctx.sub_rng(tag)
     return (corpus_cases() + label_cases(rng, per_field) + tag_cases(rng, tags) + name_cases(rng, names) + size_cases(rng)
-            + create_cases(rng, names) + hist_cases(rng, names // 2) + json_model_cases(rng))
+            + create_cases(rng, names) + hist_cases(rng, names // 2) + kept_cases(rng, names * 2) + json_model_cases(rng))
 
 
 def corpus_cases():
@@ -951,6 +1021,8 @@ def check_boot(I, s, res):
         ok, stored, ek = _accepts(fn)
         res.evaluations += 1
         case = {"kind": "boot", "len": None if s is None else len(s), "ch": None if not s else s[0], "path": pname}
+        if s and s != s[0] * len(s):
+            case["text"] = s
         if ok and not inside:
             res.violation("C16:boot_script:%s:too-long-stored" % pname, "a boot script at or over the size limit is stored", case, observed=len(stored))
         elif not ok and inside:
@@ -1402,7 +1474,7 @@ def entry_specs(I, dom, own, rng, n):
     base = dom.split(":")[0]
     out = []
     if base == "name":
-        return [{"s": s} for s in L.name_candidates(own, rng, max(n, 23))]
+        return [{"s": s} for s in L.name_candidates(own, rng, max(n, L.NAME_HEAD))]
     if base == "boot_script":
         return [{"n": k, "ch": ch} for k in (0, 1, 1023, 1024, 1025, 3000) for ch in ("x", "é")][:max(6, n)]
     if base in ("labels", "peer_labels", "label_allocations", "labelsobj"):
@@ -1448,7 +1520,7 @@ def entry_specs(I, dom, own, rng, n):
                     out.append({"f": f, "v": rng.choice([[s], [g, s], [s, g], [g, g, s]])})
         return out
     if base == "tag":
-        return [{"s": s} for s in L.tag_candidates(rng, max(n, 19))]
+        return [{"s": s} for s in L.tag_candidates(rng, max(n, 24))]
     if base == "gatewayobj":
         for m in ["00:11:22:33:44:55", "aa:BB:cc:DD:ee:FF"]:
             out.append({"mac": m, "form": "obj"})
@@ -1468,7 +1540,11 @@ def entry_points_oracle(ctx, I, res, scale=1):
                 if not EP.applicable(entry, variant, dom):
                     continue
                 aliased = 0
-                for spec in entry_specs(I, dom, own or "NodeSliver", rng, n):
+                specs = entry_specs(I, dom, own or "NodeSliver", rng, n)
+                for hist in refused_histories(I, dom, own or "NodeSliver", specs):
+                    res.nontrivial.add(canon([entry, variant, dom, "hist", hist])[:300])
+                    check_refused(I, entry, variant, own or "NodeSliver", dom, hist, res)
+                for spec in specs:
                     res.nontrivial.add(canon([entry, variant, dom, spec])[:300])
                     check_entry(I, entry, variant, own or "NodeSliver", dom, spec, res)
                     if aliased < 2 * scale and spec_inside(I, dom, spec, own or "NodeSliver") is True:
@@ -1476,6 +1552,190 @@ def entry_points_oracle(ctx, I, res, scale=1):
                         check_alias(I, entry, variant, own or "NodeSliver", dom, spec, res)
                         aliased += res.hist.get("alias:%s" % dom.split(":")[0], 0) > before
         res.count("entry-point:" + entry)
+
+
+# ---------------------------------------------------------------- histories on ONE kept target: accepted, refused, accepted
+# Every entry point is also driven as a short history in one context whose target (the sliver / the model element the entry point
+# works on) is created once and kept (EP.C(keep=True)): a call with a member, a call with a non-member (must be refused), a call
+# with another member - and a history that starts with the refused call.  After every refused call NOTHING that was handed
+# out as a target may carry the refused value, every kept target still encodes and decodes, and the whole scratch topology is
+# swept.  A setter that writes before it checks, a bulk setter that applies what it got before the bad item, a decoder that fills
+# a kept sliver and fails half-way, all leave an object that later passes the unchecked value on.
+
+def check_refused(I, entry, variant, own, dom, hist, res):
+    pr = EP.PROBES[entry]
+    case = {"kind": "refused", "entry": entry, "variant": variant, "own": own, "dom": dom, "hist": hist}
+    sig = "C16:refused.%s%s.%s" % (entry, "[%s]" % variant if variant else "", dom)
+    c = EP.C(I, keep=True)
+    refused_before = False
+    try:
+        for spec in hist:
+            if EP.overridden(entry, dom, spec):
+                return
+            inside = spec_inside(I, dom, spec, own)
+            try:
+                val = build_val(I, dom, spec)
+            except Exception:
+                continue                  # the caller could not even build the value: no call happens
+            ok, obj, ek = _accepts(lambda: pr.run(c, variant, dom, val))
+            res.evaluations += 1
+            res.count("refused:%s:%s" % (dom.split(":")[0], ("accept-after-refusal" if refused_before else "accept") if ok else "reject"))
+            if ok != (inside is True):
+                return                    # whether the call is accepted at all is judged by check_entry (derived names, wrong types)
+            if ok:
+                raw = stored_of(I, obj, dom, spec)
+                if refused_before and not isinstance(raw, tuple) and not holds(dom, spec, raw):
+                    res.violation(sig + ":member-not-stored-after-refused-call", "%s accepted a member after an earlier refused call on the same "
+                                  "target, but the store does not hold it as given" % entry, case, expected="stored as given", observed=repr(raw)[:120])
+                continue
+            refused_before = True
+            for o in list(c.objs):
+                raw = stored_of(I, o, dom, spec)
+                if holds(dom, spec, raw):
+                    res.violation(sig + ":refused-but-stored-in-kept-target", "%s raised, but the kept %s it was applied to now holds the refused "
+                                  "value" % (entry, type(o).__name__), case, expected="what it held before the refused call", observed=repr(raw)[:120])
+                ok2, _, ek2 = _accepts(lambda: still_readable(I, o, dom))
+                if not ok2:
+                    res.violation(sig + ":undecodable-after-refused-call", "after %s refused a value the kept %s it was applied to can no longer be "
+                                  "encoded and decoded" % (entry, type(o).__name__), case, expected="readable", observed=ek2)
+            if anywhere_in_graph(c, dom, spec):
+                res.violation(sig + ":rejected-but-stored", "%s raised, but an element of the topology carries the value" % entry, case, observed=ek)
+            sweep(c, entry, variant, dom, case, res)
+    finally:
+        c.close()
+
+
+def refused_histories(I, dom, own, specs):
+    good = [x for x in specs if spec_inside(I, dom, x, own) is True]
+    bad = [x for x in specs if spec_inside(I, dom, x, own) is False]
+    if dom.split(":")[0] == "boot_script":
+        bad = sorted(bad, key=lambda x: x["n"])              # at the limit first
+        good = sorted(good, key=lambda x: -x["n"])           # the longest allowed first
+    if not good or not bad:
+        return []
+    out = [[good[0], bad[0], good[-1]], [bad[-1], good[0]]]
+    if len(bad) > 2:
+        out.append([good[-1], bad[1], bad[0]])
+    return out
+
+
+# ---------------------------------------------------------------- accepted by a sliver -> encoded -> decoded, every kind of sliver
+# "whatever was accepted can be encoded and decoded again": a kept sliver of each of the five kinds takes the value through
+# its own setter, is encoded with each codec of its kind (graph-property dictionary; JSON for node and service slivers) and decoded;
+# the decoded sliver holds the same value.  Values: the sentinel look-alikes of lib_c16 (members that spell a placeholder of
+# some layer), boundary sizes, ordinary members.
+
+CODEC_KINDS = {"NodeSliver": ("node", "VM"), "ComponentSliver": ("component", "GPU"), "InterfaceSliver": ("interface", "TrunkPort"),
+               "NetworkLinkSliver": ("link", "Patch"), "NetworkServiceSliver": ("network_service", "L2Bridge")}
+CODEC_PROPS = ("name", "boot_script", "tags", "labels", "user_data", "mf_data", "layout_data", "details")
+
+
+def codecs(cls):
+    from fim.graph.abc_property_graph import ABCPropertyGraph as G
+    from fim.slivers.json import JSONSliver as J
+    k = CODEC_KINDS[cls][0]
+    out = {"props": (getattr(G, k + "_sliver_to_graph_properties_dict"), getattr(G, k + "_sliver_from_graph_properties_dict"))}
+    if cls == "NodeSliver":
+        out["json"] = (J.sliver_to_json, J.node_sliver_from_json)
+    if cls == "NetworkServiceSliver":
+        out["json"] = (J.sliver_to_json, J.network_service_sliver_from_json)
+    return out
+
+
+def _held(I, s, prop):
+    v = {"name": "resource_name"}.get(prop, prop)
+    x = getattr(s, v, None)
+    if x is None:
+        return None
+    if prop == "tags":
+        return list(x.tags)
+    if prop == "labels":
+        return I.dump(x)
+    if prop in ("user_data", "mf_data", "layout_data"):
+        return x.json
+    return x
+
+
+def sliver_types(I, cls):
+    """names of all members of the type enum of a sliver class (the common ones and the rare ones)"""
+    s = I.classes[cls]()
+    t = s.type_from_str(CODEC_KINDS[cls][1])
+    return [m.name for m in type(t)]
+
+
+def check_codec(I, cls, prop, raw, res, typ=None):
+    """raw: name / boot script / details text / tag / [field, value] / JSON text or object; typ: member of the class's type enum"""
+    c = I.classes[cls]
+    s = c()
+    s.set_type(s.type_from_str(typ or CODEC_KINDS[cls][1]))
+    try:
+        if prop != "name":
+            s.set_name("ab")
+        if prop == "name":
+            s.set_name(raw)
+        elif prop == "boot_script":
+            s.set_boot_script(raw)
+        elif prop == "details":
+            s.set_details(raw)
+        elif prop == "tags":
+            s.set_tags(I.tg.Tags(raw))
+        elif prop == "labels":
+            s.set_labels(I.cl.Labels(**{raw[0]: raw[1]}))
+        else:
+            s.set_property(prop, {"user_data": I.jd.UserData, "mf_data": I.jd.MeasurementData, "layout_data": I.jd.LayoutData}[prop](raw))
+    except Exception:
+        return                        # not accepted: the accept side is judged by the other checks
+    held = _held(I, s, prop)
+    for cname, (enc, dec) in sorted(codecs(cls).items()):
+        case = {"kind": "codec", "cls": cls, "prop": prop, "raw": raw, "codec": cname}
+        if typ:
+            case["typ"] = typ
+        res.evaluations += 1
+        res.count("codec:%s:%s" % (prop, cname))
+        ok, back, ek = _accepts(lambda: dec(enc(s)))
+        sig = "C16:codec.%s.%s.%s" % (cls, prop, cname)
+        if not ok:
+            res.violation(sig + ":decode-rejects-accepted", "a %s accepted by %s is rejected when the sliver is encoded and decoded again"
+                          % (prop, cls), case, expected="decodable", observed=ek)
+        elif _held(I, back, prop) != held or (typ and str(back.get_type()) != str(s.get_type())):
+            res.violation(sig + ":decoded-differs", "a %s accepted by %s comes back as another value when the sliver is encoded and decoded"
+                          % (prop, cls), case, expected=repr(held)[:100], observed=repr(_held(I, back, prop))[:100])
+
+
+def codec_values(I, cls, rng, n):
+    """(prop, raw) pairs: sentinel look-alikes first"""
+    dom = L.NAME_DOMAIN[cls]
+    words = L.sentinel_words()
+    out = [("name", w) for w in words if dom(w)]
+    out += [("name", w) for w in L.name_candidates(cls, rng, L.NAME_HEAD + n)[len(L.NAME_SENTINELS):] if dom(w)]
+    texts = L.LITERAL_SENTINELS + rng.sample(L.code_sentinels(), min(4, len(L.code_sentinels()))) + \
+        ["", " ", "\n", "x" * (L.BOOT_LIMIT - 1), "é" * (L.BOOT_LIMIT - 1), "#!/bin/bash\necho None\n", "None\n", "\nNone"]
+    out += [("boot_script", w) for w in texts]
+    out += [("tags", w) for w in words if L.tag_ok(w)][:n + 12]
+    for f in ("local_name", "device_name", "instance", "region", "account_id", "bgp_key"):
+        d = L.LABEL_DOMAIN.get(f, lambda x: True)
+        for w in [x for x in words if d(x)][:8]:
+            out.append(("labels", [f, w]))
+            out.append(("labels", [f, [w, w]]))
+    for prop, jc in (("user_data", "UserData"), ("mf_data", "MeasurementData"), ("layout_data", "LayoutData")):
+        for t in ("null", '"None"', "0", "false", '""', "[]", "{}", '{"None": null}', "[null]", " {} "):
+            out.append((prop, t))
+        for o in (None, "None", 0, False, "", [], {}, [None]):
+            out.append((prop, o))
+    return out
+
+
+def codec_oracle(ctx, I, res, scale=1):
+    rng = ctx.sub_rng("codec")
+    for cls in sorted(CODEC_KINDS):
+        for prop, raw in codec_values(I, cls, rng, ctx.scale(6, 40) * scale):
+            res.nontrivial.add(canon(["codec", cls, prop, raw])[:300])
+            check_codec(I, cls, prop, raw, res)
+        for typ in sliver_types(I, cls):                 # every member of the type enum, not only the common one
+            for prop, raw in (("name", "None"), ("name", "ab"), ("boot_script", "None"), ("boot_script", "x" * (L.BOOT_LIMIT - 1)), ("tags", "None"),
+                              ("labels", ["local_name", "None"]), ("user_data", '"None"')):
+                res.count("codec-type:%s:%s" % (cls, typ))
+                check_codec(I, cls, prop, raw, res, typ=typ)
 
 # ---------------------------------------------------------------- accepted, then mutated through an alias
 # Every validated CONTAINER value (a tag list, a list-valued label field, a JSON blob built from a Python object) is handed to every
@@ -1671,6 +1931,10 @@ def run_oracle_case(I, c, res):
         check_label_keys(I, res)
     elif k == "entry":
         check_entry(I, c["entry"], c["variant"], c["own"], c["dom"], c["spec"], res)
+    elif k == "refused":
+        check_refused(I, c["entry"], c["variant"], c["own"], c["dom"], c["hist"], res)
+    elif k == "codec":
+        check_codec(I, c["cls"], c["prop"], c["raw"], res, typ=c.get("typ"))
     elif k == "alias":
         check_alias(I, c["entry"], c["variant"], c["own"], c["dom"], c["spec"], res)
     elif k == "ename":
@@ -1684,7 +1948,7 @@ def run_oracle_case(I, c, res):
     elif k == "name":
         check_name(I, c["cls"], c["s"], res)
     elif k == "boot":
-        check_boot(I, None if c.get("len") is None else (c.get("ch") or "x") * c["len"], res)
+        check_boot(I, c["text"] if "text" in c else (None if c.get("len") is None else (c.get("ch") or "x") * c["len"]), res)
     elif k == "json":
         data = c["data"]
         if data is None and c.get("len") is not None:
@@ -1716,19 +1980,19 @@ def oracle(ctx, res, scale=1):
         res.nontrivial.add(canon(["tag", s])[:300])
         check_tag(I, s, res)
     for cls in sorted(I.classes):
-        for j, s in enumerate(L.name_candidates(cls, rng, ctx.scale(40, 250) * scale)):
+        for j, s in enumerate(L.name_candidates(cls, rng, ctx.scale(48, 250) * scale)):
             res.nontrivial.add(canon(["name", cls, s])[:300])
-            check_name(I, cls, s, res, deep=(j < ctx.scale(30, 120)))
+            check_name(I, cls, s, res, deep=(j < ctx.scale(38, 120)))
     # element level: every kind of element x every entry point that rewrites a validated property, with read-back
-    m = ctx.scale(25, 120) * scale
+    m = ctx.scale(34, 120) * scale
     for knd, cls in sorted(Impl.SLIVER_OF.items()):
         for s in L.name_candidates(cls, rng, m):
             res.nontrivial.add(canon(["ename", knd, s])[:300])
             check_elem_name(I, knd, s, res)
         for s in L.tag_candidates(rng, m // 2):
             check_elem_attr(I, knd, "tags", s, res)
-        for n in (0, 1023, 1024, 1025):
-            check_elem_attr(I, knd, "boot_script", "x" * n, res)
+        for bs in ["x" * k for k in (0, 1023, 1024, 1025)] + ["None", "null", "0", "False", " "]:
+            check_elem_attr(I, knd, "boot_script", bs, res)
         for attr, jc in (("user_data", "UserData"), ("mf_data", "MeasurementData"), ("layout_data", "LayoutData")):
             mx = L.JSON_MAX[jc]
             for obj in ({"a": 1}, ["a" * (mx - 4)], ["a" * (mx - 3)], '"' + "a" * (mx - 2) + '"', '"' + "a" * (mx - 1) + '"', "nope"):
@@ -1737,6 +2001,7 @@ def oracle(ctx, res, scale=1):
             cands = L.candidates(f, rng, 40)
             for s in [good_example(f)] + rng.sample(cands, max(6, m // 6)):
                 check_elem_attr(I, knd, "labels", (f, s), res)
+    codec_oracle(ctx, I, res, scale)
     entry_points_oracle(ctx, I, res, scale)
     scenario_oracle(ctx, I, res, scale)
     check_label_types(I, res, ["vlan", "mac", "numa", "asn", "local_name", "device_name", "instance", "ipv6"] + rng.sample(I.fields, 3))
